@@ -60,6 +60,16 @@ CHECKS = {
         design_ref="6.15",
         note=LEVEL_NOTE_COMMON + " Probability-1 theorems assume the generator never returns 1.0f (C15_tau_rand_can_return_one shows a state where it does).",
     ),
+    "C16": dict(
+        technique="Coq proof about the degree-pruning kernel model + Coq-proved boolean checker (reflective) executed, extracted, on the search graph of real prepared indexes; exact correspondence of degree_prune_internal",
+        text=("Theorems in coq/props/C16.v: degree_prune_row keeps at most max_degree edges strictly shorter than any kept edge (the bound "
+              "up to ties with the longest kept one, exactly the property's wording), always keeps the shortest edge, never changes a length, "
+              "leaves rows within the bound untouched; search_graph_chk = true implies the graph is square over all points, loop-free, a "
+              "subgraph of the symmetrised neighbour graph, degree-bounded up to ties, and keeps for every listing point an edge at least as "
+              "short as its nearest listed neighbour. The checker's verdict on each real index is computed by the extracted Coq function."),
+        design_ref="6.16",
+        note=LEVEL_NOTE_COMMON + " The producer NNDescent._init_search_graph (scipy coo/csr/transpose/maximum/setdiag) is validated per run by the proved checker, not verified as an algorithm.",
+    ),
 }
 
 REASON_PENDING = "check not built yet in this round (design in DESIGN.md section 6; no claim is made until the check exists)"
